@@ -743,6 +743,9 @@ def declare_concurrency_oracles(reg):
     for pid in ("C06", "C10"):
         reg.properties.setdefault(pid, {}).setdefault("bounded", []).append(
             {"name": "command-dequeued-at-shutdown", "module": "harness.e2e", "func": "DequeuedAtShutdown"})
+    # C10 speaks of POP3 sessions next to IMAP ones: the POP3 session oracle (snapshot kept while an IMAP session expunges) counts for it too
+    reg.properties.setdefault("C10", {}).setdefault("bounded", []).append(
+        {"name": "pop3-real-session", "module": "harness.pop3", "func": "Pop3Session"})
 
 
 def declare_rename_inbox(reg):
